@@ -1,0 +1,17 @@
+//go:build !verif
+
+// Package verifhook provides instrumentation points used by external runtime monitors.
+// Without the "verif" build tag every function is an empty, inlinable no-op.
+package verifhook
+
+// Enabled is true when hooks are compiled in.
+const Enabled = false
+
+// Point marks a named place between two critical sections.
+func Point(name string) {}
+
+// Fault returns an injected error when configured to.
+func Fault(name string) error { return nil }
+
+// Event records one event to the trace file.
+func Event(kind, subject, detail string) {}
